@@ -46,7 +46,8 @@ Definition display (i : str) (o : option str) : str := match o with Some s => s 
 Inductive decl_value : sexp -> pval -> Prop :=
 | dv_int k a z : is_kw "integer" k = true \/ is_kw "number" k = true -> int_tok a = Some z ->
                  decl_value (SList [k; Atom a]) (PVInt z)
-| dv_str k s : is_kw "string" k = true -> decl_value (SList [k; Str s]) (PVStr s)
+| dv_str k s v : is_kw "string" k = true -> unescape_value s = Ok v ->       (* %34% in the text is the double quote *)
+                 decl_value (SList [k; Str s]) (PVStr v)
 | dv_bool k b v : is_kw "boolean" k = true ->
                   (is_kw "true" b = true /\ v = true \/ is_kw "false" b = true /\ v = false) ->
                   decl_value (SList [k; SList [b]]) (PVBool v).
